@@ -100,3 +100,18 @@ Example C05_example_unknown :
   Unknown KSpec (DObj [("devices", DArr [DObj [("name", DStr "d");
                         ("containerEdits", DObj [("hooks", DArr [DNull; DObj [("hookName", DStr "prestart"); ("pth", DStr "/p")]])])]])]).
 Proof. exact unknown_example. Qed.
+
+(* the validation constants regenerated from the source on this run (hook stages, device node types, permission characters,
+   closID rule, annotation size and name-length limits) are the ones of the model and of WF *)
+From CDI Require Import ConstTie.
+From CDIGen Require Import ConstGen.
+Theorem C05_constants_tie :
+  sort_strings ConstGen.hook_names = sort_strings Validate.hook_names /\
+  sort_strings ConstGen.node_types = sort_strings Validate.node_types /\
+  sort_strings ConstGen.perm_chars = sort_strings model_perm_chars /\
+  ConstGen.annot_size_limit = Validate.annot_size_limit /\
+  ConstGen.closid_max = 4096%N /\ sort_strings ConstGen.closid_forbidden = ["."; ".."] /\ ConstGen.closid_badchars = [47%N; 10%N] /\
+  forallb model_closid_rejects (ConstGen.closid_forbidden ++ map (fun b => String (ascii_of_N b) EmptyString) ConstGen.closid_badchars) = true /\
+  ConstGen.qname_max = 63 /\ ConstGen.dns_subdomain_max = 253 /\ ConstGen.dns_label_max = 63.
+Proof. exact constants_tie. Qed.
+Print Assumptions C05_constants_tie.
